@@ -7,6 +7,7 @@ CONSTANTS
     ColSets = {{"x"}}
     Kinds = {"time_course"}
     FailModes = {"intfail"}
+    NameSchemes = {"plain"}
     Y0s = {9}
     Y0Again = TRUE
     MaxDur = 1
